@@ -1244,6 +1244,101 @@ example : starttagClass ['d', 'i', 'v'] ['x', '"', '>', ' ', 'l', 'a', 'n', 'g',
      ' ', 'l', 'a', 'n', 'g', '=', '"', 'p', 'y', '"', '>'] := by decide
 
 
+
+/-! ### the math filter (9d87f54) and introspected signatures (cac0f25) -/
+
+mutual
+/-- the (non-transparent) elements of a fragment: name and attributes -/
+def elementsOf : Stan → List (List Char × List (List Char × List Char))
+  | .tag name attrs children =>
+    if name.isEmpty then elementsOfList children else (name, attrs) :: elementsOfList children
+  | _ => []
+def elementsOfList : List Stan → List (List Char × List (List Char × List Char))
+  | [] => []
+  | t :: ts => elementsOf t ++ elementsOfList ts
+end
+
+mutual
+theorem isMathHtml_elements : (t : Stan) → isMathHtml t = true → ∀ e ∈ elementsOf t,
+    mathTags.contains e.1 = true ∧ e.2.all (fun kv => mathAttrs.contains kv.1) = true ∧
+      scriptHref (hrefOf e.2) = false
+  | .text _, _ => by simp [elementsOf]
+  | .comment _, _ => by simp [elementsOf]
+  | .cdata _, _ => by simp [elementsOf]
+  | .charref _, _ => by simp [elementsOf]
+  | .tag name attrs children, h => by
+    by_cases hn : name.isEmpty = true
+    · simp only [isMathHtml, hn, if_true] at h
+      simpa [elementsOf, hn] using isMathHtmlList_elements children h
+    · simp only [isMathHtml, hn, Bool.false_eq_true, if_false, Bool.and_eq_true, Bool.not_eq_true'] at h
+      obtain ⟨⟨⟨h1, h2⟩, h3⟩, h4⟩ := h
+      intro e he
+      simp only [elementsOf, hn, Bool.false_eq_true, if_false, List.mem_cons] at he
+      rcases he with he | he
+      · subst he; exact ⟨h1, h2, h3⟩
+      · exact isMathHtmlList_elements children h4 e he
+theorem isMathHtmlList_elements : (ts : List Stan) → isMathHtmlList ts = true → ∀ e ∈ elementsOfList ts,
+    mathTags.contains e.1 = true ∧ e.2.all (fun kv => mathAttrs.contains kv.1) = true ∧
+      scriptHref (hrefOf e.2) = false
+  | [], _ => by simp [elementsOfList]
+  | t :: ts, h => by
+    simp only [isMathHtmlList, Bool.and_eq_true] at h
+    intro e he
+    simp only [elementsOfList, List.mem_append] at he
+    rcases he with he | he
+    · exact isMathHtml_elements t h.1 e he
+    · exact isMathHtmlList_elements ts h.2 e he
+end
+
+/-- **C10 / math_filter_safe.** Whatever docutils' math2html produced for a formula (`html`, with
+its parse `parsed`), what `visit_math` puts on the page is either that HTML — and then every element
+of it is one of math2html's seventeen, carries only `class`/`style`/`href`/`name`, and no `href` is
+a `javascript:`/`data:`/`vbscript:` URL — or the start tag of `<tt>`/`<pre>`, the LaTeX source
+`encode`d (no `<`, `>`, `"`, every `&` an emitted entity), and the end tag. -/
+theorem math_filter_safe (html : List Char) (parsed : Option Stan) (src : List Char) (isBlock : Bool) :
+    (visitMath html parsed src isBlock = html ∧ ∃ t, parsed = some t ∧ ∀ e ∈ elementsOf t,
+        mathTags.contains e.1 = true ∧ e.2.all (fun kv => mathAttrs.contains kv.1) = true ∧
+          scriptHref (hrefOf e.2) = false) ∨
+    (∃ tag, visitMath html parsed src isBlock =
+        starttagClass tag ['m', 'a', 't', 'h'] ++ encode src ++ ['<', '/'] ++ tag ++ ['>'] ∧
+      attrSafe (encode src) = true) := by
+  unfold visitMath
+  cases parsed with
+  | none => exact Or.inr ⟨if isBlock then ['p', 'r', 'e'] else ['t', 't'], by simp, encode_safe src⟩
+  | some t =>
+    by_cases h : isMathHtml t = true
+    · exact Or.inl ⟨by simp [h], t, rfl, isMathHtml_elements t h⟩
+    · exact Or.inr ⟨if isBlock then ['p', 'r', 'e'] else ['t', 't'], by simp [h], encode_safe src⟩
+
+/-- the payloads of the finding `source-text-became-markup:math-*` are refused by the walk: an
+element that is not math2html's, an event-handler attribute, a script URL -/
+theorem math_filter_rejects :
+    isMathHtml (.tag [] [] [.tag ['s', 'c', 'r', 'i', 'p', 't'] [] [.text ['x']]]) = false ∧
+    isMathHtml (.tag [] [] [.tag ['b'] [(['o', 'n', 'c', 'l', 'i', 'c', 'k'], ['x'])] []]) = false ∧
+    isMathHtml (.tag [] [] [.tag ['a'] [(['h', 'r', 'e', 'f'], [' ', 'J', 'a', 'v', 'a', 'S', 'c', 'r', 'i', 'p', 't', ':', 'x'])] []]) = false ∧
+    isMathHtml (.tag [] [] [.tag ['s', 'p', 'a', 'n'] [(['c', 'l', 'a', 's', 's'], ['t', 'e', 'x', 't'])] [.tag ['i'] [] [.text ['a']]]]) = true := by
+  decide
+
+/-- **C10 / introspected_sig_safe.** For every repr text the signature of an introspected function
+is `(...)` or `(a=` + clean text + `)`: a default value cannot contribute markup. -/
+theorem introspected_sig_safe (r : List Char) :
+    formatSigIntrospected r = sigBroken ∨
+    ∃ t, formatSigIntrospected r = ['(', 'a', '='] ++ escapeForContent t ++ [')'] ∧
+      contentSafe (escapeForContent t) = true ∧ unescape (escapeForContent t) = some t := by
+  unfold formatSigIntrospected
+  cases html2stanText (escapeForContent r) with
+  | none => exact Or.inl rfl
+  | some t => exact Or.inr ⟨t, rfl, content_safe t, text_roundtrip t⟩
+
+/-- history (before cac0f25): the repr went to the XML parser as it was — a `<` in a default value
+was markup for it (here: refused by the text reader; the real parser built an element) -/
+theorem introspected_sigOld_counterexample :
+    formatSigIntrospectedOld ['\'', '<', 'b', '>', '\''] = none ∧
+    formatSigIntrospected ['\'', '<', 'b', '>', '\''] =
+      ['(', 'a', '=', '\'', '&', 'l', 't', ';', 'b', '&', 'g', 't', ';', '\'', ')'] := by
+  decide
+
+
 /-! ## G. `deprecate`: what is interpolated into the reST template -/
 
 /-- characters with a meaning in reST inline markup or in the line structure of the directive -/
